@@ -107,7 +107,11 @@ def numStr : Num → String
   | Num.int i => "3." ++ toString i
   | Num.real b => "1." ++ hex16 b
 
-def probeKeys : List (List Nat) := [[], [97], [98], [97, 97], [97, 98], [49]]
+def probeKeys : List (List Nat) :=
+  [[], [97], [98], [97, 97], [97, 98], [49], [48], [48, 48], [48, 48, 55], [50], [58], [47], [49, 97], [32, 49], [43, 49], [45, 48],
+   [52, 50, 57, 52, 57, 54, 55, 50, 57, 53], [52, 50, 57, 52, 57, 54, 55, 50, 57, 54], [52, 50, 57, 52, 57, 54, 55, 50, 57, 55],
+   [57, 57, 57, 57, 57, 57, 57, 57, 57, 57, 57], [48, 48, 48, 48, 48, 48, 48, 48, 48, 48, 49], [48, 48, 48, 48, 48, 48, 48, 48, 48, 49],
+   [217, 161], [196, 177]]
 
 def optKind (o : Option Doc) : String :=
   match o with
